@@ -197,16 +197,21 @@ def _run(v, tier, seed, quick):
             raise vlib.MachineryError("ht random failed rc=%s: %s %s" % (rc, out[-300:], err[-1500:]))
         rows = vlib.read_ndjson(rep)
         if os.environ.get("C09_TIMING"): vlib.log("  [t+%.0fs] random %s took %.1fs" % (time.time() - T0[0], info, time.time() - t0))
-        # validate with TLC
-        name = cfg("gen_Trace_%d.cfg" % idx, "TraceSpec", range(1, K + 1), range(1, V + 1), NIT, ["none", "key", "val"][cls], ALL_OPS if cls == 0 else SORTED_OPS, True, False, INVS,
-                   extra="CONSTRAINT Track\nPOSTCONDITION Report\n")
-        r = pool.run(1, "MapTrace", name, FAM, timeout=3000, heap="3g", env={"TRACE": tr}, keep_out=True, extra=NOTE)
+        # validate with TLC; a rejected log is looked at a second time without the iterator columns
         nlines = sum(1 for _ in open(tr))
-        m = re.search(r'"maxline", (\d+), "of", (\d+)', r.out)
-        if r.violated:
-            res = {"violated": r.violated}
-        elif r.error or not m: raise vlib.MachineryError("MapTrace (%s): %s" % (info, r.error or r.out[-1500:]))
-        else: res = {"maxline": int(m.group(1)), "of": int(m.group(2))}
+        def validate(match_iters):
+            name = cfg("gen_Trace_%d_%d.cfg" % (idx, int(match_iters)), "TraceSpec", range(1, K + 1), range(1, V + 1), NIT, ["none", "key", "val"][cls], ALL_OPS if cls == 0 else SORTED_OPS, True, False, INVS,
+                       extra="CONSTANTS MatchIters = %s\nCONSTRAINT Track\nPOSTCONDITION Report\n" % ("TRUE" if match_iters else "FALSE"))
+            r = pool.run(1, "MapTrace", name, FAM, timeout=3000, heap="3g", env={"TRACE": tr}, keep_out=True, extra=NOTE)
+            m = re.search(r'"maxline", (\d+), "of", (\d+)', r.out)
+            if r.violated: return {"violated": r.violated}
+            if r.error or not m: raise vlib.MachineryError("MapTrace (%s): %s" % (info, r.error or r.out[-1500:]))
+            return {"maxline": int(m.group(1)), "of": int(m.group(2))}
+        res = validate(True)
+        if "maxline" in res and res["maxline"] <= res["of"]:
+            res2 = validate(False)
+            if "maxline" in res2 and res2["maxline"] > res2["of"]: res["iterators_only"] = True     # the ordered-map part of every line is explained
+            elif "maxline" in res2: res = res2
         info["wall_s"] = round(time.time() - t0, 1); info["lines"] = nlines
         return info, rows, (res, tr, nlines), None
 
@@ -298,8 +303,14 @@ def _run(v, tier, seed, quick):
                 violation("a recorded execution of the real code (%s) violates %s of MapAbs (trace %s)" % (info, res["violated"], tr), {"trace": tr, "invariant": res["violated"], "config": info}, "trace")
             elif res["maxline"] <= res["of"]:
                 bad_line = _line(tr, res["maxline"])
-                violation("recorded call is not a behaviour of the ordered map MapAbs (%s): line %d of %s: %s" % (info, res["maxline"], tr, json.dumps(bad_line)[:400]),
-                          {"trace": tr, "line": res["maxline"], "record": bad_line, "previous": _line(tr, res["maxline"] - 1), "config": info}, "trace")
+                if res.get("iterators_only"):
+                    # results and contents agree with the ordered map on every line; what an iterator shows differs from the as-coded iterator
+                    # model.  Whether that breaks the property is decided by the harness monitor (reported above if it does): drift.
+                    v.drift += 1
+                    if v.drift <= 3: vlib.log("DRIFT property=C09 recorded run (%s): line %d of %s: an iterator shows something else than MapAbs says: %s" % (info, res["maxline"], tr, json.dumps(bad_line)[:300]))
+                else:
+                    violation("recorded call is not a behaviour of the ordered map MapAbs (%s): line %d of %s: %s" % (info, res["maxline"], tr, json.dumps(bad_line)[:400]),
+                              {"trace": tr, "line": res["maxline"], "record": bad_line, "previous": _line(tr, res["maxline"] - 1), "config": info}, "trace")
                 tot["lines_ok"] += res["maxline"] - 1
             else:
                 tot["lines_ok"] += nlines
